@@ -38,7 +38,7 @@ EXHAUSTIVE = True
 def bounds(tier, seed):
     return {
         "paths": ["tdvp", "dmrg", "noisy (relaxation, scripted thresholds with one jump)"],
-        "registers": ["bent3"] + (["zig4"] if tier == "thorough" else []),
+        "registers": ["pair (special-cased 2-site stepping)", "bent3"] + (["zig4"] if tier == "thorough" else []),
         "drives": ["dmm (per-atom)", "local"],
         "ordering": "off; on with every non-identity p in S_3 (S_4 generators for zig4)",
         "crash_points": "every progress() call of the run; double crash (k, k+2) for every k",
@@ -47,7 +47,7 @@ def bounds(tier, seed):
 
 
 def cases(tier, seed):
-    shapes = ["bent3"] + (["zig4"] if tier == "thorough" else [])
+    shapes = ["pair", "bent3"] + (["zig4"] if tier == "thorough" else [])
     for shape in shapes:
         n = len(kit.SHAPES[shape])
         perms = [None] + [list(p) for p in itertools.permutations(range(n)) if list(p) != list(range(n))]
@@ -55,6 +55,8 @@ def cases(tier, seed):
             perms = [None, [3, 2, 1, 0], [1, 0, 2, 3], [0, 2, 1, 3], [1, 2, 3, 0]]
         for path in ("tdvp", "dmrg", "noisy"):
             for kind in ("dmm", "local"):
+                if n == 2 and kind == "local":
+                    continue
                 for p in perms:
                     if path != "tdvp" and p not in (None, perms[1]):
                         continue
@@ -93,8 +95,9 @@ def _setup(case):
     ev = [1 / 3, 2 / 3, 1.0]
 
     def config():
-        obs = [m.Occupation(evaluation_times=ev), m.CorrelationMatrix(evaluation_times=[1.0]), m.Energy(evaluation_times=ev), m.BitStrings(evaluation_times=[1.0], num_shots=3)]
-        kw = {}
+        # BitStrings takes its shot count from the config (a non-default default_num_shots must survive the snapshot)
+        obs = [m.Occupation(evaluation_times=ev), m.CorrelationMatrix(evaluation_times=[1.0]), m.Energy(evaluation_times=ev), m.BitStrings(evaluation_times=[2 / 3, 1.0])]
+        kw = {"default_num_shots": 7}
         if case["path"] == "dmrg":
             kw["solver"] = m.Solver.DMRG
         if case["path"] == "noisy":
